@@ -1448,4 +1448,105 @@ theorem fitLoop_vinv_gen (S : Schema) (hts : TextStableP S) (hdet : DetS S) (hf 
         obtain ⟨⟨g1, hv1⟩, hU1⟩ := fitStep_vinv_gen S hts hdet hf hw hlab hleaf hcl D g st inv hv hU hwf hsz' st1 h1
         exact fitLoop_vinv_gen S hts hdet hf hw hlab hleaf hcl D fuel g1 st1 st' h inv1 hv1 hU1 hr
 
+/-! ### the decidable form of loose validity, and `replace_step` as a whole -/
+
+theorem rlB_sound (S : Schema) : ∀ (oe : Nat) (G : List Node), rlB S oe G = true → RL S oe G
+  | 0, G, h => h
+  | oe + 1, G, h => by
+    unfold rlB at h
+    split at h
+    · rename_i t a m k hl
+      obtain ⟨init, rfl⟩ := List.getLast?_eq_some_iff.mp hl
+      simp only [List.dropLast_concat, Bool.and_eq_true, decide_eq_true_eq, List.all_eq_true] at h
+      obtain ⟨⟨⟨⟨h1, h2⟩, h3⟩, h4⟩, h5⟩ := h
+      exact ⟨init, t, a, m, k, rfl, h1, h2, h3, h4, rlB_sound S oe k h5⟩
+    · simp at h
+
+theorem ulB_sound (S : Schema) : ∀ (os oe : Nat) (G : List Node), ulB S os oe G = true → UL S os oe G
+  | 0, oe, G, h => rlB_sound S oe G (by simpa [ulB] using h)
+  | os + 1, oe, G, h => by
+    cases G with
+    | nil => simp [ulB] at h
+    | cons n rest =>
+      cases n with
+      | text s m => simp [ulB] at h
+      | leaf t a m => simp [ulB] at h
+      | elem t a m k =>
+        simp only [ulB, Bool.and_eq_true, decide_eq_true_eq, List.all_eq_true] at h
+        obtain ⟨⟨⟨h1, h2⟩, h3⟩, h4⟩ := h
+        refine ⟨t, a, m, k, rest, rfl, h1, h2, h3, ?_⟩
+        split at h4
+        · rename_i he
+          have : rest = [] := by simpa using he
+          exact .inl ⟨this, ulB_sound S os (oe - 1) k h4⟩
+        · rename_i he
+          simp only [Bool.and_eq_true] at h4
+          exact .inr ⟨by intro h0; subst h0; simp at he, ulB_sound S os 0 k h4.1, rlB_sound S oe rest h4.2⟩
+
+/-- **the payload of every step `replace_step` emits is valid**, for every loosely valid request slice that is a valid
+    payload, on a valid document, when the unplaced slice stays well-formed over the run (`unplacedWfRun`) -/
+theorem replaceStep_valid_gen (S : Schema) (hdet : DetS S) (hfill : FillersOK S) (hw : WrapOK S) (hlab : LabelsOK S)
+    (hleaf : PM.FromDom.LeafOk S) (hts : TextStableP S) (hcl : Closable S) (doc : Node) (f t : Nat) (sl : Slice)
+    (hslv : openValid S sl.openStart sl.openEnd sl.content = true) (hloose : sl.looseValid S = true)
+    (hv : S.checkNode doc = true) (hattrs : S.nodeAttrsOK doc = true)
+    (hrun : unplacedWfRun S doc f t sl = true) (st : Step) (h : replaceStep S doc f t sl = .ok (some st)) :
+    ∃ sl', st.sliceOf = some sl' ∧ openValid S sl'.openStart sl'.openEnd sl'.content = true := by
+  unfold replaceStep at h
+  unfold unplacedWfRun at hrun
+  split at h
+  · simp [pure, Except.pure] at h
+  · rename_i hcond
+    rw [if_neg hcond] at hrun
+    split at h
+    · rename_i rf rt hf ht
+      simp only [hf, ht] at hrun
+      split at h
+      · simp [throw, throwThe, MonadExceptOf.throw] at h
+      · have := pure_ok h
+        simp only [Option.some.injEq] at this
+        subst this
+        exact ⟨sl, rfl, hslv⟩
+      · rename_i htriv
+        simp only [htriv] at hrun
+        obtain ⟨st0, h0, hu, hfr, hlen, hsp, _⟩ := fitInit_ok S hf hv sl
+        rw [h0] at hrun
+        simp only [beq_iff_eq] at hrun
+        have inv0 : InStep st0 := by
+          refine ⟨hfr, ?_, by rw [hlen, Nat.add_sub_cancel]; exact hsp⟩
+          intro h; rw [h] at hlen; simp at hlen
+        have hp0 := fitInit_pureV S hf hv sl st0 h0
+        have hv0 : VInv S rf.depth rf.depth st0.frontier st0.placed := by
+          refine ⟨Nat.le_refl _, by rw [hlen]; omega, [], hp0, ?_⟩
+          obtain ⟨it, hit⟩ := list_one (st0.frontier.drop rf.depth) (by rw [List.length_drop, hlen]; omega)
+          rw [hit, Nat.sub_self]
+          exact ⟨by simp [leftOpenValid], fun hh => by cases hh⟩
+        have hU0 : UInv S st0.unplaced := by
+          rw [hu]
+          exact ⟨_, _, Nat.le_refl _, Nat.le_refl _, ulB_sound S _ _ _ hloose⟩
+        unfold fitterFit at h
+        rw [FM.bind_eq h0] at h
+        obtain ⟨st1, h1, h⟩ := FM.bind_ok h
+        obtain ⟨inv1, g1, hv1⟩ := fitLoop_vinv_gen S hts hdet hfill hw hlab hleaf hcl rf.depth _ rf.depth st0 st1 h1
+          inv0 hv0 hU0 hrun
+        obtain ⟨mi, _, h⟩ := FM.bind_ok h
+        simp only at h
+        obtain ⟨target, htg, h⟩ := FM.bind_ok h
+        obtain ⟨c, hc, h⟩ := FM.bind_ok h
+        cases c with
+        | none => simp [pure, Except.pure] at h
+        | some c =>
+          simp only at h
+          have hpt : ∃ pt, doc.resolve pt = some target := by
+            cases mi with
+            | none =>
+              have := pure_ok htg
+              subst this
+              exact ⟨t, ht⟩
+            | some p => exact ⟨p, liftRaise_ok htg⟩
+          obtain ⟨pt, hpt⟩ := hpt
+          have hcv := closeFit_vinv S hdet hfill hleaf hts hcl hpt hattrs st1.frontier st1.placed rf.depth g1
+            inv1.frok inv1.sp hv1 c.1 c.2 hc
+          exact fitEmit_valid S rf rt mi _ c.1 c.2 st h hcv
+    · simp [throw, throwThe, MonadExceptOf.throw] at h
+
 end PM
